@@ -228,7 +228,7 @@ fn build_fixture() -> Fx {
     let _bkb2 = fixed_bank(&mut b, "bkB2", "gB", "m2", 1.0);
     // marginfi accounts
     for (n, g, auth) in [("accA", "gA", "u"), ("accB", "gB", "u"), ("accL", "gA", "liq"), ("accU", "gA", "v"),
-                         ("accBad", "gA", "v2"), ("accE", "gA", "u"), ("accT", "gA", "v")] {
+                         ("accBad", "gA", "v2"), ("accE", "gA", "u"), ("accT", "gA", "v"), ("accBE", "gB", "u")] {
         let k = mk_marginfi_account(&mut b.w, b.names[g], b.names[auth]);
         b.name(n, k);
     }
@@ -367,7 +367,141 @@ fn build_fixture() -> Fx {
         b.ok(ix, &[s], "init bank metadata");
         b.pda(&format!("{}.meta", bn), key, &format!("pda[marginfi;s:metadata;k:{}]", bn));
     }
+
+    // ------------------------------------------------------------------ venue (Kamino / Drift / Solend) objects
+    // Only what account validation looks at: owner, discriminator, size and the cross-referencing keys.
+    venue_fixture(&mut b);
     Fx { accounts: b.w.accounts.clone(), names: b.names, order: b.order, derivs: b.derivs, now0 }
+}
+
+fn put_venue<T: bytemuck::Pod>(b: &mut B, name: &str, key: Pubkey, owner: Pubkey, disc: &[u8], v: &T, len: Option<usize>) {
+    let mut data = disc.to_vec();
+    data.extend_from_slice(bytemuck::bytes_of(v));
+    if let Some(l) = len {
+        data.resize(l, 0);
+    }
+    let lamports = rent_exempt(data.len());
+    b.w.put(key, Acct { lamports, data, owner, executable: false });
+    if !b.names.contains_key(name) {
+        b.name(name, key);
+    }
+}
+
+fn venue_bank(b: &mut B, name: &str, tag: u8) -> Pubkey {
+    let bank = fixed_bank(b, name, "gA", "m1", 1.0);
+    b.w.update::<Bank>(&bank, |bk| bk.config.asset_tag = tag);
+    bank
+}
+
+fn venue_fixture(b: &mut B) {
+    use marginfi_type_crate::constants::{ASSET_TAG_DRIFT, ASSET_TAG_KAMINO, ASSET_TAG_SOLEND, ASSET_TAG_STAKED};
+    let m1 = b.k("m1");
+    for wn in ["payer"] {
+        let k = mk_token_account(&mut b.w, m1, b.names[wn], 1_000_000 * U);
+        b.name(&format!("{}.t1", wn), k);
+    }
+    let fata = mk_ata(&mut b.w, b.names["em"], b.names["fwal"], 0);
+    b.pda("fwal.ataem", fata, "pda[ata;k:fwal;k:PROG:token;k:em]");
+    // a staked-collateral bank (propagate_staked_settings)
+    venue_bank(b, "bkSt", ASSET_TAG_STAKED);
+
+    // ---- Kamino: reserve kres of lending market klm; bkK0 (obligation not yet created), bkK (obligation exists)
+    let klm = tagged_key("fixture:klm");
+    b.name("klm", klm);
+    let kres = tagged_key("fixture:kres");
+    let mut r = kamino_mocks::state::MinimalReserve::zeroed();
+    r.lending_market = klm;
+    r.mint_pubkey = m1;
+    r.slot = b.w.slot;
+    put_venue(b, "kres", kres, kamino_mocks::ID, &kamino_mocks::state::RESERVE_DISCRIMINATOR, &r, None);
+    for (bn, exists) in [("bkK0", false), ("bkK", true)] {
+        let bank = venue_bank(b, bn, ASSET_TAG_KAMINO);
+        let lva = b.k(&format!("{}.lva", bn));
+        let spec = format!("pda[kamino;n1:0;n1:0;k:{}.lva;k:klm;k:PROG:system;k:PROG:system]", bn);
+        let obl = resolve_pda(&spec, &|x: &str| b.names[x]);
+        b.pda(&format!("{}.kobl", bn), obl, &spec);
+        b.w.update::<Bank>(&bank, |bk| {
+            bk.integration_acc_1 = kres;
+            bk.integration_acc_2 = obl;
+        });
+        if exists {
+            let mut o = kamino_mocks::state::MinimalObligation::zeroed();
+            o.lending_market = klm;
+            o.owner = lva;
+            o.deposits[0].deposit_reserve = kres;
+            o.last_update_slot = b.w.slot;
+            put_venue(b, &format!("{}.kobl", bn), obl, kamino_mocks::ID, &kamino_mocks::state::OBLIGATION_DISCRIMINATOR, &o, None);
+        }
+    }
+
+    // ---- Drift: spot markets dsm (mint m1), dsm2 (mint m2); bkD0 (user not created), bkD (user + stats exist)
+    for (n, mint, idx) in [("dsm", "m1", 1u16), ("dsm2", "m2", 2u16)] {
+        let key = tagged_key(&format!("fixture:{}", n));
+        let mut sm = drift_mocks::state::MinimalSpotMarket::default();
+        sm.pubkey = key;
+        sm.mint = b.k(mint);
+        sm.market_index = idx;
+        sm.decimals = 6;
+        put_venue(b, n, key, drift_mocks::ID, &drift_mocks::state::SPOT_MARKET_DISCRIMINATOR, &sm, None);
+    }
+    for (bn, exists) in [("bkD0", false), ("bkD", true), ("bkDh", true)] {
+        let bank = venue_bank(b, bn, ASSET_TAG_DRIFT);
+        let lva = b.k(&format!("{}.lva", bn));
+        let uspec = format!("pda[drift;s:user;k:{}.lva;n2:0]", bn);
+        let sspec = format!("pda[drift;s:user_stats;k:{}.lva]", bn);
+        let user = resolve_pda(&uspec, &|x: &str| b.names[x]);
+        let stats = resolve_pda(&sspec, &|x: &str| b.names[x]);
+        b.pda(&format!("{}.duser", bn), user, &uspec);
+        b.pda(&format!("{}.dstats", bn), stats, &sspec);
+        let dsm = b.k("dsm");
+        b.w.update::<Bank>(&bank, |bk| {
+            bk.integration_acc_1 = dsm;
+            bk.integration_acc_2 = user;
+            bk.integration_acc_3 = stats;
+        });
+        if exists {
+            let mut u = drift_mocks::state::MinimalUser::zeroed();
+            u.authority = lva;
+            if bn == "bkDh" {
+                // an "admin deposit" of the reward market dsm2 (index 2) in position 2: what harvest requires
+                u.spot_positions[2].market_index = 2;
+                u.spot_positions[2].scaled_balance = 1;
+                u.spot_positions[2].balance_type = drift_mocks::state::SpotBalanceType::Deposit;
+            }
+            put_venue(b, &format!("{}.duser", bn), user, drift_mocks::ID, &drift_mocks::state::USER_DISCRIMINATOR, &u, None);
+            let mut st = drift_mocks::state::MinimalUserStats::zeroed();
+            st.authority = lva;
+            put_venue(b, &format!("{}.dstats", bn), stats, drift_mocks::ID, &drift_mocks::state::USER_STATS_DISCRIMINATOR, &st, None);
+        }
+    }
+    // ATA of bkD's vault authority for the reward mint (drift_harvest_reward)
+    {
+        let (lva, em) = (b.k("bkDh.lva"), b.k("em"));
+        let ata = mk_ata(&mut b.w, em, lva, 0);
+        b.pda("bkDh.lva.ataem", ata, "pda[ata;k:bkDh.lva;k:PROG:token;k:em]");
+    }
+
+    // ---- Solend: reserve sres; bkS0 (obligation not yet created), bkS (obligation exists)
+    let sres = tagged_key("fixture:sres");
+    let mut r = solend_mocks::state::SolendMinimalReserve::zeroed();
+    r.liquidity_mint_pubkey = m1;
+    r.last_update_slot = u64::MAX / 2;
+    put_venue(b, "sres", sres, solend_mocks::ID, &solend_mocks::state::RESERVE_DISCRIMINATOR, &r, Some(solend_mocks::state::RESERVE_LEN));
+    for (bn, exists) in [("bkS0", false), ("bkS", true)] {
+        let bank = venue_bank(b, bn, ASSET_TAG_SOLEND);
+        let spec = format!("pda[marginfi;s:solend_obligation;k:{}]", bn);
+        let obl = resolve_pda(&spec, &|x: &str| b.names[x]);
+        b.pda(&format!("{}.sobl", bn), obl, &spec);
+        b.w.update::<Bank>(&bank, |bk| {
+            bk.integration_acc_1 = sres;
+            bk.integration_acc_2 = obl;
+        });
+        if exists {
+            let data = vec![0u8; solend_mocks::state::OBLIGATION_LEN];
+            let lamports = rent_exempt(data.len());
+            b.w.put(obl, Acct { lamports, data, owner: solend_mocks::ID, executable: false });
+        }
+    }
 }
 
 fn metadata_key(bank: &Pubkey) -> Pubkey {
@@ -835,7 +969,7 @@ fn liquidate_counts(c: &mut Cell) -> (u8, u8) {
 
 /// remaining accounts of the base transaction of `name` (fixture objects; all banks use Fixed prices, so
 /// the risk-engine lists contain banks only)
-fn remaining(name: &str, c: &mut Cell) -> Vec<AccountMeta> {
+fn remaining(name: &str, c: &mut Cell, m: &[AccountMeta]) -> Vec<AccountMeta> {
     let k = |c: &mut Cell, n: &str| c.resolve(n);
     match name {
         "lending_account_withdraw" => {
@@ -858,8 +992,10 @@ fn remaining(name: &str, c: &mut Cell) -> Vec<AccountMeta> {
             remaining_for(&c.w, &a, &[])
         }
         "lending_account_end_flashloan" | "lending_account_pulse_health" => {
-            let a = k(c, "accA");
-            remaining_for(&c.w, &a, &[])
+            // the risk-engine accounts of whichever marginfi account the cell binds
+            let a = m[0].pubkey;
+            let is_acct = c.w.account(&a).map(|x| x.owner == marginfi::ID && x.data.len() >= 8 && x.data[..8] == discriminators::ACCOUNT).unwrap_or(false);
+            if is_acct { remaining_for(&c.w, &a, &[]) } else { vec![] }
         }
         "start_liquidation" | "end_liquidation" | "start_deleverage" | "end_deleverage" => {
             let a = k(c, "accU");
@@ -871,37 +1007,40 @@ fn remaining(name: &str, c: &mut Cell) -> Vec<AccountMeta> {
 }
 
 /// Instructions that only succeed next to a companion in the same transaction: returns (before, after).
-fn companions(name: &str, c: &mut Cell) -> (Vec<Ix>, Vec<Ix>) {
+/// The companion acts on the same account / record / signer keys as the instruction under test (`m`).
+fn companions(name: &str, c: &mut Cell, m: &[AccountMeta]) -> (Vec<Ix>, Vec<Ix>) {
     let k = |c: &mut Cell, n: &str| c.resolve(n);
     match name {
+        // marginfi_account, authority, ixs_sysvar
         "lending_account_start_flashloan" => {
-            let (a, u) = (k(c, "accA"), k(c, "u"));
-            let rem = remaining_for(&c.w, &a, &[]);
+            let (a, u) = (m[0].pubkey, m[1].pubkey);
+            let rem = if c.w.get::<MarginfiAccount>(&a).is_some() { remaining_for(&c.w, &a, &[]) } else { vec![] };
             (vec![], vec![ixs::lending_account_end_flashloan(a, u, rem)])
         }
-        "lending_account_end_flashloan" => {
-            let (a, u) = (k(c, "accA"), k(c, "u"));
-            (vec![ixs::lending_account_start_flashloan(a, u, 1)], vec![])
-        }
+        // marginfi_account, liquidation_record, liquidation_receiver, instruction_sysvar
         "start_liquidation" => {
-            let (a, l, fw) = (k(c, "accU"), k(c, "liq"), k(c, "fwal"));
-            let rem = remaining_for(&c.w, &a, &[]);
-            (vec![], vec![ixs::end_liquidation(a, l, fw, rem)])
+            let (a, l, fw) = (m[0].pubkey, m[2].pubkey, k(c, "fwal"));
+            let rem = if c.w.get::<MarginfiAccount>(&a).is_some() { remaining_for(&c.w, &a, &[]) } else { vec![] };
+            (vec![], vec![ixs::end_liquidation(a, l, fw, rem).set_account(1, m[1].pubkey)])
         }
+        // the preceding start_liquidation acts on the fixture's unhealthy account with receiver `liq`
+        // (it only looks at the discriminator of the last instruction, so it succeeds whatever the end
+        // instruction under test is bound to)
         "end_liquidation" => {
-            let (a, l) = (k(c, "accU"), k(c, "liq"));
+            let (a, l, r) = (k(c, "accU"), k(c, "liq"), k(c, "accU.rec"));
             let rem = remaining_for(&c.w, &a, &[]);
-            (vec![ixs::start_liquidation(a, l, rem)], vec![])
+            (vec![ixs::start_liquidation(a, l, rem).set_account(1, r)], vec![])
         }
+        // marginfi_account, liquidation_record, group, risk_admin, instruction_sysvar
         "start_deleverage" => {
-            let (g, a, r) = (k(c, "gA"), k(c, "accU"), k(c, "rsk"));
-            let rem = remaining_for(&c.w, &a, &[]);
-            (vec![], vec![ixs::end_deleverage(g, a, r, rem)])
+            let (a, g, r) = (m[0].pubkey, m[2].pubkey, m[3].pubkey);
+            let rem = if c.w.get::<MarginfiAccount>(&a).is_some() { remaining_for(&c.w, &a, &[]) } else { vec![] };
+            (vec![], vec![ixs::end_deleverage(g, a, r, rem).set_account(1, m[1].pubkey)])
         }
         "end_deleverage" => {
-            let (g, a, r) = (k(c, "gA"), k(c, "accU"), k(c, "rsk"));
+            let (a, g, r, rec) = (k(c, "accU"), k(c, "gA"), k(c, "rsk"), k(c, "accU.rec"));
             let rem = remaining_for(&c.w, &a, &[]);
-            (vec![ixs::start_deleverage(g, a, r, rem)], vec![])
+            (vec![ixs::start_deleverage(g, a, r, rem).set_account(1, rec)], vec![])
         }
         _ => (vec![], vec![]),
     }
@@ -1017,9 +1156,10 @@ pub fn run(line: &str) -> String {
         }
     }
     let data = ix_data(name, &mut c);
-    metas.extend(remaining(name, &mut c));
+    let rem = remaining(name, &mut c, &metas);
+    metas.extend(rem);
     let ix = Ix { program_id: marginfi::ID, accounts: metas, data };
-    let (before_ixs, after_ixs) = companions(name, &mut c);
+    let (before_ixs, after_ixs) = companions(name, &mut c, &ix.accounts);
     for cix in before_ixs.iter().chain(after_ixs.iter()) {
         for m in cix.accounts.iter() {
             if m.is_signer && !signers.contains(&m.pubkey) {
@@ -1127,7 +1267,8 @@ fn dump_world(fx: &Fx) -> String {
                     vec![("group", bk.group), ("mint", bk.mint), ("liquidity_vault", bk.liquidity_vault),
                          ("insurance_vault", bk.insurance_vault), ("fee_vault", bk.fee_vault),
                          ("emissions_mint", bk.emissions_mint), ("fees_destination_account", bk.fees_destination_account),
-                         ("integration_acc_1", bk.integration_acc_1), ("integration_acc_2", bk.integration_acc_2)],
+                         ("integration_acc_1", bk.integration_acc_1), ("integration_acc_2", bk.integration_acc_2),
+                         ("integration_acc_3", bk.integration_acc_3)],
                     vec![("flags", bk.flags as i128), ("asset_tag", bk.config.asset_tag as i128),
                          ("operational_state", bk.config.operational_state as u8 as i128),
                          ("asset_weight_init", awi.to_bits())],
@@ -1179,6 +1320,24 @@ fn dump_world(fx: &Fx) -> String {
     out.join(" | ")
 }
 
-fn venue_projection(_a: &Acct) -> (&'static str, Vec<(&'static str, Pubkey)>, Vec<(&'static str, i128)>) {
-    ("?", vec![], vec![])
+fn venue_projection(a: &Acct) -> (&'static str, Vec<(&'static str, Pubkey)>, Vec<(&'static str, i128)>) {
+    let d8: [u8; 8] = if a.data.len() >= 8 { a.data[..8].try_into().unwrap() } else { [0; 8] };
+    let pk = |off: usize| Pubkey::new_from_array(a.data[off..off + 32].try_into().unwrap());
+    if a.owner == kamino_mocks::ID && d8 == kamino_mocks::state::RESERVE_DISCRIMINATOR {
+        let r: kamino_mocks::state::MinimalReserve =
+            bytemuck::pod_read_unaligned(&a.data[8..8 + std::mem::size_of::<kamino_mocks::state::MinimalReserve>()]);
+        ("MinimalReserve", vec![("lending_market", r.lending_market), ("mint_pubkey", r.mint_pubkey)], vec![])
+    } else if a.owner == kamino_mocks::ID && d8 == kamino_mocks::state::OBLIGATION_DISCRIMINATOR {
+        ("MinimalObligation", vec![], vec![])
+    } else if a.owner == drift_mocks::ID && d8 == drift_mocks::state::SPOT_MARKET_DISCRIMINATOR {
+        ("MinimalSpotMarket", vec![("mint", pk(8 + 64))], vec![])
+    } else if a.owner == drift_mocks::ID && d8 == drift_mocks::state::USER_DISCRIMINATOR {
+        ("MinimalUser", vec![], vec![])
+    } else if a.owner == drift_mocks::ID && d8 == drift_mocks::state::USER_STATS_DISCRIMINATOR {
+        ("MinimalUserStats", vec![], vec![])
+    } else if a.owner == solend_mocks::ID && a.data.len() == solend_mocks::state::RESERVE_LEN && a.data[0] == 1 {
+        ("SolendMinimalReserve", vec![("liquidity_mint_pubkey", pk(1 + 41))], vec![])
+    } else {
+        ("?", vec![], vec![])
+    }
 }
